@@ -1,4 +1,4 @@
-"""python3 -m fxmc.confirm_seed <prop> <srcdir> <n> [<n> ...]
+"""python3 -m fxmc.confirm_seed <prop> <srcdir> <n>[:<as>] [<n>[:<as>] ...]
 
 Confirms seeded changes delivered by an independent agent (srcdir/out/patch<n>.diff, demo<n>.cpp, notes<n>.md) and files the confirmed
 ones under /verif/seeded/<prop>-<n>/ (patch.diff, demo.cpp, notes.md, meta.json).  Confirmation, all in a scratch worktree of /repo's HEAD
@@ -83,7 +83,8 @@ def main():
     stable = [t.split("::")[0] for t in json.load(open("/root/.vp/BASELINE.json"))["stable_pass"]]
     head = ensure_wt()
     for n in nums:
-        sid = f"{prop}-{n}"
+        n, _, dest = n.partition(":")          # "1:3" = deliver patch1 as <prop>-3 (second and later seeding rounds)
+        sid = f"{prop}-{dest or n}"
         patch = os.path.join(src, "out", f"patch{n}.diff")
         demo = os.path.join(src, "out", f"demo{n}.cpp")
         notes = os.path.join(src, "out", f"notes{n}.md")
